@@ -21,8 +21,15 @@ class ObserversMixin:
         for rep in sorted(pt.real):
             t = pt.real[rep]
             faults = self.world.faults if rep == "sqlite" else None
-            armed = bool(faults and faults.armed)
-            if armed:
+            armed = False
+            if faults and self.pending_fault and kind in ("export", "build_query", "repr", "dict"):
+                fk, k = self.pending_fault
+                self.pending_fault = None
+                if fk == "exec":
+                    faults.arm_exec(k)
+                else:
+                    faults.arm_connect()
+                armed = True
                 step["_fault"] = True
             if kind == "export":
                 res = self.observe(pt, rep, [])
